@@ -1,4 +1,5 @@
 import RocflModel.Cli
+import RocflModel.Lemmas.ListViewLemmas
 /-
   C20 — the command line does what the library does and its exit status is truthful.
 
@@ -121,5 +122,31 @@ example : translate ["commit".toList, "-n".toList, "Me".toList, "-p".toList, "ob
 
 example : validateRepoExit ["E072".toList] [] { errors := ["E072".toList] } { errors := [] } [some { errors := [] }] = 0 := by decide
 example : validateRepoExit [] [] { errors := ["E072".toList] } { errors := [] } [some { errors := [] }] = 2 := by decide
+
+/-! ### `ls <object> [<path>]`: what is printed (model `ListView.listContents` of cmd/list.rs) -/
+
+/-- **`ls <object>`** prints every logical path of the version, one entry each -/
+theorem C20_ls_lists_all (paths : List Str) : ListView.listContents false none paths = some paths :=
+  ListView.list_all paths
+
+/-- **`ls -D <object>`** prints the top directory: the paths without `/` and the top-level directories -/
+theorem C20_ls_top_level (paths : List Str) :
+    ListView.listContents true none paths =
+      some (paths.filter (fun p => decide ('/' ∉ toByteChars p)) ++
+            ((ListView.dirsOf paths).filter (fun d => decide ('/' ∉ toByteChars d) && !d.isEmpty)).map (· ++ ['/'])) :=
+  ListView.list_top_level paths
+
+/-- **`ls -D <object> <directory>`** prints exactly the direct children of that directory (files, and
+    sub-directories with a trailing slash), when the query names no file and exactly one directory -/
+theorem C20_ls_directory (paths : List Str) (d q : Str)
+    (hq : toByteChars q = escapeAll (toByteChars d))
+    (hq0 : ListView.queryGlob (some q) = q) (hql : q.getLast? ≠ some '/') (hstar : q ≠ ['*'])
+    (hnofile : ∀ p ∈ paths, toByteChars p ≠ toByteChars d)
+    (hdir : ((ListView.dirsOf paths).filter (fun x => decide (toByteChars x = toByteChars d))).length = 1) :
+    ListView.listContents true (some q) paths =
+      some (paths.filter (ListView.childOf (toByteChars d)) ++
+            ((ListView.dirsOf paths).filter
+              (fun x => !(decide (toByteChars x = toByteChars d)) && ListView.childOf (toByteChars d) x)).map (· ++ ['/'])) :=
+  ListView.list_directory paths d q hq hq0 hql hstar hnofile hdir
 
 end Rocfl.Cli
